@@ -11,6 +11,9 @@ import Oracle.C11b
 import Oracle.C19
 import Oracle.C04
 import Oracle.C03
+import Oracle.C07
+import Oracle.C01pt
+import Oracle.C12
 open Oracle
 
 def dispatch (op : String) (args res : List String) : String :=
@@ -19,7 +22,8 @@ def dispatch (op : String) (args res : List String) : String :=
   else
     let handlers : List (String → List String → List String → Option String) :=
       [Oracle.C01.handle, Oracle.C02.handle, Oracle.C11.handle, Oracle.C06a.handle, Oracle.C09.handle,
-       Oracle.C13.handle, Oracle.C14.handle, Oracle.C15.handle, Oracle.C11b.handle, Oracle.C19.handle, Oracle.C04.handle, Oracle.C03.handle]
+       Oracle.C13.handle, Oracle.C14.handle, Oracle.C15.handle, Oracle.C11b.handle, Oracle.C19.handle, Oracle.C04.handle, Oracle.C03.handle, Oracle.C07.handle,
+       Oracle.C01pt.handle, Oracle.C12.handle]
     match handlers.findSome? (fun h => h op args res) with
     | some v => v
     | none => "bad unknown-op-or-args " ++ op
